@@ -98,6 +98,8 @@ def expected : List Entry := [
     why := "a struct of scalars and an error value" },
   { field := { name := "lastExit", type := "exitStatus", how := "literal:r.lastExit" }, cls := .byValue, why := "same" },
   { field := { name := "lastExpandExit", type := "exitStatus", how := "zero" }, cls := .zero, why := "transient" },
+  { field := { name := "expandFailed", type := "bool", how := "zero" }, cls := .zero,
+    why := "transient: set by expandErr and consumed by the command being expanded, on the Runner's own goroutine" },
   { field := { name := "bgProcs", type := "[]bgProc", how := "zero" }, cls := .zero,
     why := "each shell tracks only its own children" },
   { field := { name := "opts", type := "runnerOpts", how := "literal:r.opts" }, cls := .byValue, why := "an array of bools" },
